@@ -104,3 +104,54 @@ Definition C11c_spec (aux : bool * list (Z * qres)) (o : parse_out) : bool :=
                                       | _ => false end
                            | Err _ => false end) (note_ends ch)
   end.
+
+(** *** C02 *)
+Definition the_track (ch : chart) : option itrack :=
+  match all_tracks ch with [tr] => Some tr | _ => None end.
+
+Definition C02_spec (aux : bool * list (Z * Z)) (o : parse_out) : bool :=
+  on_chart (fst aux) o (fun ch _ =>
+    match the_track ch with Some tr => Spec.C02.spec_b (snd aux) tr | None => false end).
+
+(** *** C03
+    aux: per tick the (index, length) pairs written; the implementation's own
+    (longest_sustain, end_tick) per event; its own un-hinted queries; its last_note_end_timestamp. *)
+Definition C03_aux := (bool * list (Z * list (Z * Z)) * list (Z * Z) * list (Z * qres) * option Z)%type.
+
+Definition max_list (l : list Z) : option Z :=
+  match l with [] => None | x :: xs => Some (fold_left Z.max xs x) end.
+
+Definition C03_note_ok (groups : list (Z * list (Z * Z))) (qs : list (Z * qres)) (e : note_event) (le : Z * Z) : bool :=
+  match zlookup (n_tick e) groups with
+  | None => false
+  | Some g =>
+      let s := spec_sustain g in
+      sustain_eqb (n_sustain e) s &&
+      match max_list (sustain_values s) with
+      | None => false
+      | Some m =>
+          (fst le =? m) && (snd le =? n_tick e + m) &&
+          match zlookup (n_tick e + m) qs with
+          | Some (Ok (ts, _)) => (ts =? n_end_ts e) && (t_ts (n_at e) <=? n_end_ts e)
+          | _ => false
+          end
+      end
+  end.
+
+Definition C03_spec (aux : C03_aux) (o : parse_out) : bool :=
+  let '(wf, groups, les, qs, last) := aux in
+  on_chart wf o (fun ch _ =>
+    match the_track ch with
+    | Some tr =>
+        Nat.eqb (length les) (length (it_notes tr)) &&
+        forallb (fun p => C03_note_ok groups qs (fst p) (snd p)) (combine (it_notes tr) les) &&
+        opt_Z_eqb last (max_list (map n_end_ts (it_notes tr))) &&
+        opt_Z_eqb last (last_note_end tr)
+    | None => false
+    end).
+
+(** *** C04  aux: resolution and (tap, forced) per event *)
+Definition C04_spec (aux : bool * Z * list (bool * bool)) (o : parse_out) : bool :=
+  let '(wf, R, flags) := aux in
+  on_chart wf o (fun ch _ =>
+    match the_track ch with Some tr => spec_b_chain R None (it_notes tr) flags | None => false end).
